@@ -314,6 +314,7 @@ type absInterp struct {
 	results []emitResult
 	depth   int
 	budget  int
+	procErr string // a called procedure could not be evaluated: the emitted bytes are not trustworthy
 }
 
 func typeWidth(t types.Type) (int, bool) {
@@ -431,12 +432,27 @@ func (ai *absInterp) runBlock(fn *ssa.Function, b, from *ssa.BasicBlock, st *abs
 		case *ssa.DebugRef:
 		case ssa.Value:
 			if cl, ok := ins.(*ssa.Call); ok {
-				if cal := staticCallee(cl.Common()); cal != nil && cal.Blocks != nil && strings.HasPrefix(pkgPathOf(cal), Mod) {
+				if cal := staticCallee(cl.Common()); cal != nil && cal.Blocks != nil && (strings.HasPrefix(pkgPathOf(cal), Mod) || pkgPathOf(cal) == "encoding/binary") {
 					var args []aval
 					for _, a := range cl.Call.Args {
 						args = append(args, ai.val(st, a))
 					}
 					res := ai.evalFunc(cal, args, nil)
+					if cal.Signature.Results().Len() == 0 {
+						// a procedure: its effect is what it stored through the slices/pointers it was given
+						if len(res) == 1 && res[0].err == "" {
+							continue
+						}
+						msg := fmt.Sprintf("procedure %s has %d paths", cal.Name(), len(res))
+						for _, r0 := range res {
+							if r0.err != "" {
+								msg = "procedure " + cal.Name() + ": " + r0.err
+							}
+						}
+						st.env[cl] = fmt.Errorf("%s", msg)
+						ai.procErr = msg
+						continue
+					}
 					// bool-returning helpers stay opaque atoms (their truth set is analysed separately)
 					if isBool(cal.Signature.Results().At(0).Type()) {
 						st.env[cl] = ABool{Atom: "call " + cal.Name(), Src: cl}
@@ -541,6 +557,14 @@ func (ai *absInterp) val(st *absState, v ssa.Value) aval {
 			if i, ok := constant.Int64Val(c.Value); ok {
 				return constAInt(uint64(i), w, signed)
 			}
+		}
+	case *ssa.Global:
+		// a package-level byte array that is written only by its initialiser: a constant table
+		if bk := constByteArray(c); bk != nil {
+			cp := &backing{b: append([]AByte(nil), bk.b...)}
+			p := APtr{bk: cp, off: 0, w: 0}
+			st.env[v] = p
+			return p
 		}
 	case *ssa.Alloc:
 		// array allocation
@@ -940,6 +964,9 @@ func emit(fn *ssa.Function) []emitResult {
 			er.Bytes = append(er.Bytes, s.bk.b[s.off:s.off+s.len]...)
 		} else if po.err == "" {
 			er.Err = fmt.Sprintf("result is not a byte slice (%T)", po.val)
+		}
+		if er.Err == "" && ai.procErr != "" {
+			er.Err = ai.procErr
 		}
 		out = append(out, er)
 	}
@@ -1347,4 +1374,128 @@ func guardTrueSet(fn *ssa.Function) (iset, string) {
 		return nil, fail
 	}
 	return mergeIvals(trueSet), ""
+}
+
+var constArrMemo = map[*ssa.Global]*backing{}
+var constArrDone = map[*ssa.Global]bool{}
+
+// constByteArray returns the contents of a package-level [N]byte variable when the package initialiser stores a constant
+// into every element and nothing else in its package can write it (elements are only loaded; the whole array is only
+// sliced as the source operand of append/copy or measured with len). nil otherwise.
+func constByteArray(g *ssa.Global) *backing {
+	if constArrDone[g] {
+		return constArrMemo[g]
+	}
+	constArrDone[g] = true
+	pt, ok := g.Type().Underlying().(*types.Pointer)
+	if !ok {
+		return nil
+	}
+	at, ok := pt.Elem().Underlying().(*types.Array)
+	if !ok {
+		return nil
+	}
+	if ew, _ := typeWidth(at.Elem()); ew != 8 {
+		return nil
+	}
+	if g.Object() != nil && g.Object().Exported() {
+		return nil
+	}
+	bk := &backing{b: make([]AByte, at.Len())}
+	set := make([]bool, at.Len())
+	okAll := true
+	var fns []*ssa.Function
+	var addAnon func(f *ssa.Function)
+	addAnon = func(f *ssa.Function) {
+		fns = append(fns, f)
+		for _, a := range f.AnonFuncs {
+			addAnon(a)
+		}
+	}
+	for _, m := range g.Pkg.Members {
+		switch x := m.(type) {
+		case *ssa.Function:
+			addAnon(x)
+		case *ssa.Type:
+			for _, t := range []types.Type{x.Type(), types.NewPointer(x.Type())} {
+				ms := g.Pkg.Prog.MethodSets.MethodSet(t)
+				for i := 0; i < ms.Len(); i++ {
+					if mf := g.Pkg.Prog.MethodValue(ms.At(i)); mf != nil && mf.Pkg == g.Pkg && mf.Blocks != nil {
+						addAnon(mf)
+					}
+				}
+			}
+		}
+	}
+	for _, f := range fns {
+		isInit := f.Name() == "init" && f.Parent() == nil && f.Signature.Recv() == nil
+		for _, b := range f.Blocks {
+			for _, ins := range b.Instrs {
+				for _, op := range ins.Operands(nil) {
+					if op == nil || *op != ssa.Value(g) {
+						continue
+					}
+					switch x := ins.(type) {
+					case *ssa.IndexAddr:
+						for _, ref := range *x.Referrers() {
+							switch r := ref.(type) {
+							case *ssa.UnOp:
+							case *ssa.Store:
+								cv, isC := r.Val.(*ssa.Const)
+								ic, isI := x.Index.(*ssa.Const)
+								if !isInit || r.Addr != ssa.Value(x) || !isC || !isI || cv.Value == nil {
+									okAll = false
+									continue
+								}
+								i := int(ic.Int64())
+								if i < 0 || i >= len(set) {
+									okAll = false
+									continue
+								}
+								bk.b[i] = byteOf(constAInt(uint64(cv.Int64())&0xff, 8, false))
+								set[i] = true
+							default:
+								okAll = false
+							}
+						}
+					case *ssa.Slice:
+						for _, ref := range *x.Referrers() {
+							cl, isCall := ref.(*ssa.Call)
+							if !isCall {
+								okAll = false
+								continue
+							}
+							bi, isB := cl.Call.Value.(*ssa.Builtin)
+							if !isB {
+								okAll = false
+								continue
+							}
+							switch bi.Name() {
+							case "len", "cap":
+							case "append", "copy":
+								if len(cl.Call.Args) < 2 || cl.Call.Args[1] != ssa.Value(x) || cl.Call.Args[0] == ssa.Value(x) {
+									okAll = false
+								}
+							default:
+								okAll = false
+							}
+						}
+					default:
+						okAll = false
+					}
+				}
+			}
+		}
+	}
+	for i := range set {
+		if !set[i] {
+			// elements not mentioned by the initialiser are zero
+			bk.b[i] = byteOf(constAInt(0, 8, false))
+		}
+	}
+	if !okAll {
+		return nil
+	}
+	constArrMemo[g] = bk
+	return bk
 }
